@@ -660,9 +660,9 @@ func c07Enum(leaves []*xnode, depth int) []*xnode {
 	return out
 }
 
-var c07Depth2 []*xnode   // full alphabet, depth <= 2
-var c07Depth2s []*xnode  // small alphabet, depth <= 2 (building blocks of depth 3)
-var c07Depth3N int       // number of depth-3 trees over the small alphabet
+var c07Depth2 []*xnode  // full alphabet, depth <= 2
+var c07Depth2s []*xnode // small alphabet, depth <= 2 (building blocks of depth 3)
+var c07Depth3N int      // number of depth-3 trees over the small alphabet
 
 func c07Init() {
 	c07Depth2 = c07Enum(c07FullLeaves, 2)
@@ -835,7 +835,7 @@ func init() {
 		Rule: "expression trees over {+ - * / % ^ == != < <= > >= in and or, unary - and not}: exhaustively all trees of depth <= 2 over 27 leaves (int/float/string/bool literals and variables incl. uint8, negative and zero values, lists, a map, counting calls), " +
 			"all (thorough) or every 16th (quick, offset by seed) depth-3 tree over 5 leaves, plus kind-directed random trees of depth <= 8; each printed with minimal parentheses for the property's precedence table in a canonical and in random layouts (spacing, and/&&, or/||, not/!, !=/<>, quote style), in {{ }} and in {% if %}; " +
 			"an independent evaluator of the tree gives the expected value / error / number of calls of the counting functions (short-circuit). Trees outside the judged fragment (kind mismatches, overflow, NaN) are counted as unjudged. distinct_nontrivial = distinct judged trees.",
-		MinNontriv: 1000,
+		MinNontriv:  1000,
 		Assumptions: []string{"int^int may print as integer or float (both accepted)", "not on an integer may print 0/1 or False/True", "mixed and/or, chained comparisons, cross-kind equality are always parenthesised or not generated"},
 	})
 }
